@@ -245,14 +245,23 @@ impl<'d> BuildCtx<'d> {
                     union(&mut ir, cr);
                     union(&mut iw, cw);
                     let core = CtlCore { tag: *tag, n: *n, t: *t, shared: self.shared.clone(), path: path.clone(), iter };
+                    self.shared.behav[*tag].is_multi.store(ctl_is_multi(*ctl), SeqCst);
                     let dr: Vec<&str> = deps.iter().map(|s| s.as_str()).collect();
+                    let direct = self.shared.direct_multi.load(SeqCst);
                     let real = match catch_unwind(AssertUnwindSafe(|| match ctl {
+                        9 if direct => b.add_batch(MultiDispatcher::new(Plan9(*n)), ib, name, &dr),
+                        10 if direct => b.add_batch(MultiDispatcher::new(Plan10(*n)), ib, name, &dr),
                         0 => b.add_batch(Ctl0(core), ib, name, &dr),
                         1 => b.add_batch(Ctl1(core), ib, name, &dr),
                         2 => b.add_batch(Ctl2(core), ib, name, &dr),
                         3 => b.add_batch(Ctl3(core), ib, name, &dr),
                         4 => b.add_batch(Ctl4(core), ib, name, &dr),
-                        _ => b.add_batch(Ctl5(core), ib, name, &dr),
+                        5 => b.add_batch(Ctl5(core), ib, name, &dr),
+                        6 => b.add_batch(Ctl6(core), ib, name, &dr),
+                        7 => b.add_batch(Ctl7(core), ib, name, &dr),
+                        8 => b.add_batch(Ctl8(core), ib, name, &dr),
+                        9 => b.add_batch(MCtl(core, MultiDispatcher::new(Plan9(*n))), ib, name, &dr),
+                        _ => b.add_batch(MCtl(core, MultiDispatcher::new(Plan10(*n))), ib, name, &dr),
                     })) {
                         Ok(()) => "placed".to_string(),
                         Err(p) => classify_add_panic(p),
